@@ -332,8 +332,28 @@ func hsDrive(w *hsWorld, rnd *rand.Rand, steps, tr int, res *vResult) {
 	nodes := []*vNode{A, B, M, X}
 	profile := tr % 4 // 0 mixed, 1 replay heavy, 2 lossy (retries, give-up, queue), 3 simultaneous initiators
 	tag := 0
+	burstAt := -1
+	if profile == 2 {
+		burstAt = 5 + rnd.Intn(10)
+	}
 	for s := 0; s < steps; s++ {
 		r := rnd.Intn(100)
+		if s == burstAt {
+			// queue bound: more than 100 inside packets behind one pending handshake (stage 1 is never delivered before)
+			st := A.Ctrl.VerifProject()
+			tg := addr("10.129.0.2")
+			if len(st.Pending) > 0 {
+				tg = netip.MustParseAddr(st.Pending[0].VpnAddr)
+			}
+			if _, ok := st.Hosts[tg.String()]; !ok {
+				for k := 0; k < 104; k++ {
+					tag++
+					w.tunSend(A, tg, fmt.Sprintf("burst-%d", tag))
+				}
+				res.Hit("queue-burst")
+			}
+			continue
+		}
 		switch {
 		case r < 22 || (profile == 3 && r < 40):
 			nd := nodes[rnd.Intn(len(nodes))]
